@@ -247,7 +247,156 @@ def rule_t2(ctx, facts):
                          "list passed to TreeBin::new is private" if not bad else "TreeBin::new relinks the nodes of a list that derives from %s" % "; ".join(bad)[:300])
 
 
+def rule_t3(ctx, facts):
+    """traverser index provenance: the sibling-bin stride is the length saved in the frame that was pushed for the table in which
+    the forwarding marker was found; frames restore exactly what was saved; base stepping uses base_size / base_index"""
+    from .affine import evaluator, Aff, TOP, canon_place
+    from .analysis import cond_of, dominated_by_edge, flow
+    from .facts import op_root
+
+    def body_of(suffix):
+        r = [b for b in facts.bodies if b.sid.endswith(suffix) or b.id.endswith(suffix)]
+        if len(r) != 1:
+            raise __import__("vf.facts", fromlist=["AnchorError"]).AnchorError("traverser anchor %s resolves to %d bodies" % (suffix, len(r)))
+        return r[0]
+    rs = body_of("NodeIter::recover_state")
+    nx = [b for b in facts.bodies if "NodeIter" in b.id and b.name == "next" and b.impl and b.impl.get("trait") == "std::iter::Iterator"][0]
+    ps = body_of("NodeIter::push_state")
+    P = lambda *f: ("place", 1, tuple(f))
+    INDEX, BASE_SIZE, BASE_INDEX, TOPLEN = P("index"), P("base_size"), P("base_index"), P("stack", "0", "length")
+
+    def index_assignments(b):
+        ev = evaluator(b)
+        out = []
+        for bi, blk in enumerate(b.blocks):
+            if blk["cleanup"]:
+                continue
+            for si, st in enumerate(blk["stmts"]):
+                if st["k"] == "assign" and st["dst"]["local"] == 1:
+                    fs = [e["name"] for e in st["dst"]["proj"] if isinstance(e, dict) and "field" in e]
+                    if fs in (["index"], ["base_index"]):
+                        f = ev.operand(st["rv"]["use"]) if "use" in st["rv"] else TOP
+                        out.append((fs[0], f, st["span"], (bi, si)))
+        return out
+
+    def classify(b, f):
+        if f is TOP:
+            return None
+        if f == Aff({INDEX: 1, TOPLEN: 1}):
+            return "A index + top frame length"
+        if f == Aff({INDEX: 1, BASE_SIZE: 1}):
+            return "C index + base_size"
+        if f == Aff({BASE_INDEX: 1}):
+            return "D base_index"
+        if len(f.symbols()) == 1 and f.c == 0:
+            s0 = next(iter(f.symbols()))
+            if s0[0] == "place" and s0[2] == ("index",) and s0[1] != 1 and f.coeff(s0) == 1:
+                # popped frame: root local comes from Option::take(&mut self.stack)
+                for c in flow(b).call_roots(s0[1]):
+                    if c is not None and callee_str(c).endswith("Option::take") and canon_place(b, {"local": op_root(c.args[0]), "proj": []}) == (1, ("stack",)):
+                        return "B popped frame index"
+        return None
+    for b, need in ((rs, {"A", "B", "C", "D"}), (nx, {"C", "D"})):
+        seen = set()
+        for field, f, span, pt in index_assignments(b):
+            if field == "base_index":
+                ok = f is not TOP and f == Aff({BASE_INDEX: 1}, 1)
+                ctx.inst("T3", b, "base_index step", span, ok, "base_index + 1" if ok else "base_index is set to %s" % (f.show(b) if f is not TOP else "?"))
+                continue
+            k = classify(b, f)
+            if k:
+                seen.add(k[0])
+            ctx.inst("T3", b, "index := %s" % (k or "?"), span, k is not None,
+                     k if k else "the traverser's bin index is set to %s, which is none of: index + saved frame length (sibling bin in the next table), "
+                     "the popped frame's index, index + base_size, base_index" % (f.show(b) if f is not TOP else "a non-affine value"))
+        miss = need - seen
+        ctx.inst("T3", b, "index update kinds", b.span, not miss, "all of %s present" % sorted(need) if not miss else "missing index update kind(s) %s" % sorted(miss))
+    # guards in recover_state
+    ev = evaluator(rs)
+    g1 = g2 = False
+    for blk in range(len(rs.blocks)):
+        cd = cond_of(rs, blk)
+        if cd and cd["kind"] == "cmp":
+            a, bb = ev.operand(cd["a"]), ev.operand(cd["b"])
+            if a is TOP or bb is TOP:
+                continue
+            nsym = any(s0[0] == "phi" and s0[1] == 2 or s0 == ("arg", 2) for s0 in bb.symbols())
+            if cd["op"] == "Lt" and a == Aff({INDEX: 1, TOPLEN: 1}) and nsym:
+                g1 = True
+            if cd["op"] == "Ge" and a == Aff({INDEX: 1}) and nsym:
+                g2 = True
+    # the assignment taken when the sibling bin is still inside the table must be the frame-length stride
+    for blk in range(len(rs.blocks)):
+        cd = cond_of(rs, blk)
+        if cd and cd["kind"] == "cmp" and cd["op"] == "Lt":
+            a = ev.operand(cd["a"])
+            if a is not TOP and a == Aff({INDEX: 1, TOPLEN: 1}):
+                from .facts import Point
+                for field, f, span, pt in index_assignments(rs):
+                    if field == "index" and dominated_by_edge(rs, Point(pt[0], pt[1]), [(blk, cd["true"])]):
+                        k = classify(rs, f)
+                        ok = bool(k) and k[0] == "A"
+                        ctx.inst("T3", rs, "sibling-bin stride", span, ok, "advances by the saved frame length" if ok else
+                                 "when the sibling bin index + frame.length is still inside the table, the index advances by %s instead of the saved "
+                                 "length of the table the forwarding marker was found in: after two generations of forwarding bins are skipped / "
+                                 "visited twice" % (f.show(rs) if f is not TOP else "?"))
+    ctx.inst("T3", rs, "stay-in-frame test", rs.span, g1, "index + frame.length < n decides between the sibling bin and popping" if g1 else
+             "the test `index + frame.length < n` is missing or compares something else")
+    ctx.inst("T3", rs, "wrap test", rs.span, g2, "index >= n moves to the next base bin" if g2 else "the wrap test `index >= n` is missing or compares something else")
+    # on pop: n := frame.length ; table := frame.table
+    okn = False
+    for pt, f in ev.def_forms(2):
+        if f is not TOP and len(f.symbols()) == 1:
+            s0 = next(iter(f.symbols()))
+            if s0[0] == "place" and s0[2] == ("length",) and s0[1] != 1:
+                okn = True
+    ctx.inst("T3", rs, "pop restores n", rs.span, okn, "n := popped frame's length" if okn else "after popping a frame the bound n is not restored from the frame")
+    okt = False
+    for blk in rs.blocks:
+        for st in blk["stmts"]:
+            if st["k"] == "assign" and st["dst"]["local"] == 1 and [e["name"] for e in st["dst"]["proj"] if isinstance(e, dict) and "field" in e] == ["table"]:
+                l = op_root(st["rv"].get("use", {})) if "use" in st["rv"] else None
+                for kind, data, pt in flow(rs).sources(l) if l is not None else []:
+                    if kind == "agg" and data["rv"]["agg"].get("variant") == "Some":
+                        p0 = data["rv"]["ops"][0].get("copy") or data["rv"]["ops"][0].get("move")
+                        if p0 and canon_place(rs, p0)[1][-1:] == ("table",):
+                            okt = True
+    ctx.inst("T3", rs, "pop restores table", rs.span, okt, "table := popped frame's table" if okt else "after popping a frame the table is not restored from the frame")
+    # push_state stores (t, n, i) into the right fields; next() passes (current table, current index, its length)
+    okp = False
+    fl = flow(ps)
+    for blk in ps.blocks:
+        for st in blk["stmts"]:
+            if st["k"] == "assign" and "agg" in st["rv"] and st["rv"]["agg"].get("adt", "").endswith("TableStack"):
+                names = st["rv"]["agg"]["fields"]
+                m = {}
+                for nme, o in zip(names, st["rv"]["ops"]):
+                    r = op_root(o)
+                    m[nme] = {k for k in range(1, ps.nargs + 1) if r is not None and fl.derives_from_arg(r, k)}
+                okp = m.get("table") == {2} and m.get("index") == {3} and m.get("length") == {4}
+    ctx.inst("T3", ps, "frame fields", ps.span, okp, "TableStack { table: t, index: i, length: n }" if okp else "push_state stores its arguments into the wrong frame fields")
+    ev = evaluator(nx)
+    okc = False
+    for c in nx.calls:
+        if c.resolved == ps.id and not nx.is_cleanup(c.b):
+            fi, fn = ev.operand(c.args[2]), ev.operand(c.args[3])
+            tl = op_root(c.args[1])
+            len_ok = False
+            if fn is not TOP and len(fn.symbols()) == 1:
+                s0 = next(iter(fn.symbols()))
+                lc = nx.call_at(s0[1]) if s0[0] == "call" else None
+                if lc is not None and callee_str(lc).endswith("Table::len") and tl is not None and \
+                        (flow(nx).closure_locals(op_root(lc.args[0])) & flow(nx).closure_locals(tl)):
+                    len_ok = True
+            okc = fi is not TOP and fi == Aff({INDEX: 1}) and len_ok
+            ctx.inst("T3", nx, "push_state(t, index, t.len())", c.span, okc, "saves the current table, index and that table's length" if okc else
+                     "the frame pushed when descending into a forwarded table does not record (current table, current index, its length)")
+
+
 def run(ctx, facts):
+    ctx.rule("T3", "traverser index provenance: sibling-bin stride = saved length of the table the marker was found in; frames restore what was saved; "
+                   "base stepping by base_size / base_index", floor=14)
+    rule_t3(ctx, facts)
     ctx.rule("T1", "a value loaded from a nullable link is dereferenced only after the non-null edge of an is_null test (frozen exceptions: 4 keys)",
              floor=60, floor_note="load-then-deref sites across map.rs, node.rs, raw/mod.rs, traverser.rs")
     ctx.rule("T2", "transfer / treeify_bin / untreeify store node links only into private nodes; TreeBin::new only receives private lists",
